@@ -19,7 +19,8 @@ import (
 type verifC33Bucket struct {
 	verifBucket
 	content  map[string][]byte
-	failGet  string // Get of this object fails with a transient error
+	failGet  string
+	failBody string // Get of this object succeeds but reading its body breaks // Get of this object fails with a transient error
 	failIter bool   // listing fails
 }
 
@@ -32,8 +33,15 @@ func (b *verifC33Bucket) Get(_ context.Context, name string) (io.ReadCloser, err
 	if b.find(name) == nil {
 		return nil, errVerifNotFound
 	}
+	if name == b.failBody {
+		return io.NopCloser(verifC33BrokenBody{}), nil
+	}
 	return io.NopCloser(bytes.NewReader(b.content[name])), nil
 }
+type verifC33BrokenBody struct{}
+
+func (verifC33BrokenBody) Read([]byte) (int, error) { return 0, errVerifTransient }
+
 func (b *verifC33Bucket) Iter(ctx context.Context, dir string, f func(string) error, options ...objstore.IterOption) error {
 	if b.failIter {
 		return errVerifTransient
@@ -112,12 +120,15 @@ func VerifC33Fetch() {
 		}
 	}
 	failing := -1
-	switch verifIntRange("failure", 0, 2) {
+	switch verifIntRange("failure", 0, 3) {
 	case 1:
 		failing = verifIntRange("failingBlock", 0, n-1)
 		bkt.failGet = ids[failing].String() + "/meta.json"
 	case 2:
 		bkt.failIter = true
+	case 3:
+		failing = verifIntRange("failingBlock", 0, n-1)
+		bkt.failBody = ids[failing].String() + "/meta.json"
 	}
 	f, err := NewMetaFetcher(log.NewNopLogger(), 1, bkt, NewRecursiveLister(log.NewNopLogger(), bkt), "", nil, nil)
 	verifAssert(err == nil, "fetcher-built")
@@ -125,7 +136,7 @@ func VerifC33Fetch() {
 		return
 	}
 	metas, partial, err := f.Fetch(context.Background())
-	readFails := bkt.failIter || (failing >= 0 && bkt.find(bkt.failGet) != nil)
+	readFails := bkt.failIter || (failing >= 0 && (bkt.find(bkt.failGet) != nil || bkt.find(bkt.failBody) != nil))
 	if readFails {
 		verifAssert(err != nil, "failed-read-gives-incomplete-view-error")
 		verifReach("incomplete-view")
